@@ -86,7 +86,10 @@ def safe_oracle(prop, c, ops, results, side):
 
 def evaluate(prop, cases, bins, driver, workdir, want_model=True):
     impl = run_impl(bins[prop.pkg], cases, workdir, test=prop.test)
-    model = run_model(driver, impl) if want_model else {}
+    # (cases outside the model's domain are not replayed on the model at all: nothing of its answer would be used, and some of
+    # them - documents nested ten thousand levels deep - cost the extracted model more time than a check has)
+    by_id = {c["id"]: c for c in cases}
+    model = run_model(driver, {cid: l for cid, l in impl.items() if cid in by_id and prop.in_model_domain(by_id[cid])}) if want_model else {}
     out = {}
     for c in cases:
         cid = c["id"]
